@@ -263,6 +263,21 @@ def attrEv (n : QName) (v : Option Str) : MItem → MItem
 
 def setAttr (n : QName) (v : Option Str) (s : MStream) : MStream := s.map (attrEv n v)
 
+/-- `AttrTransformation` with a callable value `value(name, event)` -/
+def attrFnEv (n : QName) (f : QName → AttrList → Option Str) : MItem → MItem
+  | (some .enter, .ev (.start t a)) =>
+      (some .enter, .ev (.start t (match f t a with
+        | none => attrsSub a [n]
+        | some w => attrsSet a n w)))
+  | p => p
+
+def setAttrFn (n : QName) (f : QName → AttrList → Option Str) (s : MStream) : MStream :=
+  s.map (attrFnEv n f)
+
+/-- `attrs.get(key)` with a plain string key -/
+def attrGet (a : AttrList) (k : Str) : Option Str :=
+  (a.find? fun (q, _) => q.ns.isEmpty && q.loc = k).map (·.2)
+
 /-! ### removal -/
 
 /-- names listed by an ATTR-marked event (`event[1][1]`) -/
@@ -413,10 +428,11 @@ inductive Op where
   | select (rs : List Res)
   | selectFail      -- a select during which `Path.test()` itself raised (ill-nested input; path.py is C05/C17)
   | invert | endSel | empty | remove | unwrap
-  | wrap (tag : QName) (attrs : AttrList)
+  | wrap (tag : QName) (attrs : AttrList) (kids : Stream)     -- `Element(tag, **attrs)(*kids)`
   | replace (c : Content) | before (c : Content) | after (c : Content)
   | prepend (c : Content) | append (c : Content)
   | attr (name : QName) (v : Option Str) | rename (n : QName)
+  | attrFn (name : QName) (f : QName → AttrList → Option Str)
   | copy (id : Nat) (acc : Bool) | cut (id : Nat) (acc : Bool) | buffer
   | mapBang (all : Bool) | subst (pat rep : Str) (count : Nat)
   | filter (f : List MEv → List MEv)      -- any stream filter (as a function on event lists)
@@ -447,13 +463,14 @@ def applyOp (b : Bufs) : Op → MStream → Option (MStream × Bufs)
   | .empty, s => some (empty s, b)
   | .remove, s => some (remove s, b)
   | .unwrap, s => some (unwrap s, b)
-  | .wrap t a, s => some (wrap [.start t a] (.end_ t) s, b)
+  | .wrap t a kids, s => some (wrap (.start t a :: kids) (.end_ t) s, b)
   | .replace c, s => some (replace (content b c) s, b)
   | .before c, s => some (before (content b c) s, b)
   | .after c, s => some (after (content b c) s, b)
   | .prepend c, s => some (prepend (content b c) s, b)
   | .append c, s => some (append (content b c) s, b)
   | .attr n v, s => some (setAttr n v s, b)
+  | .attrFn n f, s => some (setAttrFn n f s, b)
   | .rename n, s => some (rename n s, b)
   | .copy id acc, s => some (copy s, b.set id (copyBuf acc .idle (b.get id) s))
   | .cut id acc, s => (cut acc s).map (·, b.set id (cutBuf acc .idle (if acc then b.get id else []) s))
